@@ -46,6 +46,19 @@ with gen_env((d0, d1, d2, d3, d4, d5, d6, d7), (c0, c1, c2, c3, c4, c5), (), sma
 return ok_validate(S, s), ("drew" if t.draws > 0 else "nodraw")
 """
 
+SEQ = """
+import re as _re
+from d42.generation import Random as _Random, RegexGenerator as _RegexGenerator
+PATS = {pats!r}
+with gen_env((d0, d1, d2, d3, d4, d5, d6, d7), (c0, c1, c2, c3, c4, c5), (), small=False) as t:
+    g = _RegexGenerator(_Random(), max_repeat=2)       # ONE generator for the whole sequence (as d42.fake uses one)
+    outs = [g.generate(P) for P in PATS]
+for P, s in zip(PATS, outs):
+    if not isinstance(s, str) or _re.fullmatch(P, s) is None:
+        return False, "a later pattern on the same generator yields a non-match"
+return True, "drew"
+"""
+
 UNSUP = """
 from d42.generation import Random as _Random, RegexGenerator as _RegexGenerator
 import re as _re
@@ -98,6 +111,11 @@ def harnesses(tier, seed, active_kf=()):
     for i, p in enumerate(["a{1,%d}" % k, "a{0,%d}b" % (k - 1), "(?:ab){2,%d}" % (k + 1), "a{1,%d}" % int(_c.MIN_REPEAT), "[ab]{0,%d}?c" % k]):
         out.append(mk("C09.bounded.%03d" % i, TAPE, GEN.format(pat=p).replace("max_repeat=2", "max_repeat=60"), covers=("drew",),
                       pre=TPRE, timeout=120 * k_t if False else 120, functions=FUNCS, bounds=BOUNDS, meta={"pattern": p}, cover_timeout=60))
+    # several different patterns on ONE generator instance: state kept between generate() calls must not leak
+    for i, ps in enumerate([("[^ab]", "[^hi]", "[^xy]", "[^01]", "[^hi]", "[^ab]"), ("[^a-c]", "[a-c]", "[^d-f]", r"[^\d]", "[^a-c]"),
+                            ("a|b", "[^q]", "(?:c|d)", "[^r]", "[^q]")]):
+        out.append(mk("C09.sequence.%03d" % i, TAPE, SEQ.format(pats=ps), covers=("drew",), pre=TPRE, timeout=120, functions=FUNCS,
+                      bounds=BOUNDS, meta={"pattern": " ; ".join(ps)}, cover_timeout=60))
     n = 0
     for a in UNSUPPORTED_ATOMS:
         for tmpl in ("%sb", "c%sb", "cb%s", "(?:x|%s)b", "(c%s)+"):
